@@ -298,6 +298,12 @@ pub fn configs(prop: &str, thorough: bool) -> Vec<SimConfig> {
                 let mut c = full("n2-exec-polls-ready", 2, true);
                 c.exec_polls_ready = true;
                 v.push(c);
+                // spurious wake-ups of the hand-back task while the connection is still busy
+                let mut c = full("n2-lax-is-open-spurious-wakes", 2, true);
+                c.strict_is_open = false;
+                c.ev_nudge = true;
+                c.allow_h2 = false;
+                v.push(c);
                 // nothing may be kept idle: a released connection either goes to a waiter (once ready) or is closed
                 let mut c = full("n2-lax-is-open-max0", 2, true);
                 c.strict_is_open = false;
@@ -432,7 +438,7 @@ pub(crate) fn replay_json(cfg: &SimConfig, hist: &[Ev]) -> serde_json::Value {
             "name": cfg.name, "origins": cfg.origins, "max_requests": cfg.max_requests, "allow_h1": cfg.allow_h1, "allow_h2": cfg.allow_h2,
             "continue_after_preemption": cfg.continue_after_preemption, "max_idle_per_host": cfg.max_idle_per_host, "idle_timeout": cfg.idle_timeout,
             "split_handshake": cfg.split_handshake, "strict_is_open": cfg.strict_is_open, "ev_cancel": cfg.ev_cancel, "ev_dial_fail": cfg.ev_dial_fail,
-            "exec_polls_ready": cfg.exec_polls_ready, "h1_only_protocol": cfg.h1_only_protocol, "ev_close": cfg.ev_close, "ev_upgrade": cfg.ev_upgrade, "max_ticks": cfg.max_ticks, "t_ms": cfg.t_ms, "burst": cfg.burst, "max_depth": cfg.max_depth, "macro_finish": cfg.macro_finish, "fine_ticks": cfg.fine_ticks, "prelude": cfg.prelude,
+            "exec_polls_ready": cfg.exec_polls_ready, "h1_only_protocol": cfg.h1_only_protocol, "ev_nudge": cfg.ev_nudge, "ev_close": cfg.ev_close, "ev_upgrade": cfg.ev_upgrade, "max_ticks": cfg.max_ticks, "t_ms": cfg.t_ms, "burst": cfg.burst, "max_depth": cfg.max_depth, "macro_finish": cfg.macro_finish, "fine_ticks": cfg.fine_ticks, "prelude": cfg.prelude,
         },
         "history": hist.iter().map(|e| e.text()).collect::<Vec<_>>(),
     })
@@ -454,6 +460,7 @@ fn cfg_from_json(v: &serde_json::Value) -> Option<SimConfig> {
         strict_is_open: b("strict_is_open"),
         exec_polls_ready: b("exec_polls_ready"),
         h1_only_protocol: b("h1_only_protocol"),
+        ev_nudge: b("ev_nudge"),
         ev_cancel: b("ev_cancel"),
         ev_dial_fail: b("ev_dial_fail"),
         ev_close: b("ev_close"),
